@@ -70,12 +70,28 @@ def check(cx):
         free_tests = [c for c in fe.calls() if c.callee == FR + "MemFrame::is_free" or any(
             t == "io::cache::PageCache::evict::{closure#0}" for t in p.targets(c))]
         ok_free = p.reaches(fe.id, FR + "MemFrame::is_free")
-        good = bool(rem) and ok_free and all(any(fe.dominates(t.bb, r.bb) for t in free_tests) for r in rem)
+        # the search may live in a method of the cache that evict calls (`let Some(i) = self.find_free_index() else ..`): the
+        # removed index then has to be what that search returned, and the search has to ask is_free()
+        searchers = {}
+        for c in fe.calls():
+            g = p.raw_fns.get(c.callee)
+            if g is not None and g.impl_adt == fe.impl_adt and g.id != fe.id and p.reaches(g.id, FR + "MemFrame::is_free"):
+                searchers[g.id] = c
+
+        def from_search(r):
+            l = op_local(r.args[1]) if len(r.args) > 1 else None
+            if l is None:
+                return False
+            prov = fe.nearest_calls(l)
+            return any(("call", g) in prov and fe.dominates(c.bb, r.bb) for g, c in searchers.items())
+        good = bool(rem) and ok_free and all(any(fe.dominates(t.bb, r.bb) for t in free_tests) or from_search(r) for r in rem)
         cx.verdict(good, r2, "evict-only-free", fe.where(), "removal dominated by the is_free() test",
                    "evict removes a frame without testing is_free(): a pinned page can be evicted while a writer holds it")
         # bounded sweep with wrap-around: the index is computed with Rem by the number of frames
-        rems = [s for b in fe.blocks for s in b["stmts"] if s["rv"].get("r") == "bin" and s["rv"]["op"] == "Rem"]
-        lens = [c for c in fe.calls() if c.callee.endswith("::len")]
+        fam = [fe] + [p.fn(g) for g in searchers]
+        fam = fam + [p.fn(c) for g in list(fam) for c in p.closure_children.get(g.id, ())]
+        rems = [s for g in fam for b in g.blocks for s in b["stmts"] if s["rv"].get("r") == "bin" and s["rv"]["op"] == "Rem"]
+        lens = [c for g in fam for c in g.calls() if c.callee.endswith("::len")]
         cx.verdict(bool(rems) and bool(lens), r2, "evict-sweeps-all-frames", fe.where(), "index = (cursor + step) % len",
                    "the eviction sweep does not wrap around: once the cursor passed the last frame every insertion "
                    "into a full cache fails with out-of-memory (D31)")
